@@ -101,7 +101,10 @@ func (w *world) VS(h uint64) tmconsensus.ValidatorSet {
 	if h >= initialH+2 {
 		rot := int(h % 3)
 		honest = []int{honest[rot], honest[(rot+1)%3], honest[(rot+2)%3]}
-		pows[0] = 10 + h%3
+		// The total power changes markedly between consecutive heights (39, 39, 46, 53, 39, 46, ...), so that a
+		// threshold computed from a neighbouring height's total is observably wrong: at height 3, 17+10 reaches 2/3 of
+		// 39 but not of 46.
+		pows[0] = 10 + 7*((h+1)%3)
 		if h == 5 {
 			for i, k := range honest {
 				if k == 2 {
